@@ -156,5 +156,8 @@ class Check(PropertyCheck):
     def search(self, boost=1):
         return self.oracle(self.texts(self.scale(1500, 25000) * boost))
 
+    def oracle_on_texts(self, texts):
+        return self.oracle([t for t in texts if "# Legend:" not in t])
+
     def replay_case(self, case):
         return self.oracle([case["input"]])
